@@ -559,3 +559,97 @@ def received_length_exprs(fi, buf):
         if good:
             ok.add(name)
     return ok
+
+
+# ---------------------------------------------------------------------------
+# form-independent reading of values
+def local_defs(fi):
+    """name -> list of value expressions assigned to the bare local `name`
+    anywhere in fi (tuple targets give Subscript projections of the value
+    when it is not a literal tuple)."""
+    import copy as _copy
+    out = {}
+    body = fi.node.body if not isinstance(fi.node, ast.Lambda) else []
+    for n in (x for s in body for x in ast.walk(s)):
+        if isinstance(n, ast.Assign):
+            for t in n.targets:
+                if isinstance(t, ast.Name):
+                    out.setdefault(t.id, []).append(n.value)
+                elif isinstance(t, (ast.Tuple, ast.List)):
+                    for i, e in enumerate(t.elts):
+                        if isinstance(e, ast.Name):
+                            if isinstance(n.value, (ast.Tuple, ast.List)) \
+                                    and len(n.value.elts) == len(t.elts):
+                                out.setdefault(e.id, []).append(
+                                    n.value.elts[i])
+                            else:
+                                out.setdefault(e.id, []).append(
+                                    ast.Subscript(
+                                        value=_copy.deepcopy(n.value),
+                                        slice=ast.Constant(value=i),
+                                        ctx=ast.Load()))
+        elif isinstance(n, (ast.AugAssign, ast.AnnAssign)) and isinstance(
+                n.target, ast.Name):
+            out.setdefault(n.target.id, []).extend([None, None])
+        elif isinstance(n, (ast.For, ast.comprehension)):
+            for x in ast.walk(n.target):
+                if isinstance(x, ast.Name):
+                    out.setdefault(x.id, []).extend([None, None])
+        elif isinstance(n, ast.With):
+            for i in n.items:
+                if i.optional_vars is not None:
+                    for x in ast.walk(i.optional_vars):
+                        if isinstance(x, ast.Name):
+                            out.setdefault(x.id, []).extend([None, None])
+        elif isinstance(n, ast.ExceptHandler) and n.name:
+            out.setdefault(n.name, []).extend([None, None])
+    for p in fi.params:
+        out.setdefault(p, []).extend([None, None])
+    return out
+
+
+def expand_locals(fi, expr, depth=6, _defs=None):
+    """Copy of `expr` in which every local of fi that has exactly one
+    definition is replaced by the defining expression (recursively): the
+    *provenance* of the value, independent of how many temporaries the
+    source threads it through.  Not for rules about freshness of a read."""
+    import copy as _copy
+    defs = _defs if _defs is not None else local_defs(fi)
+
+    class T(ast.NodeTransformer):
+        def __init__(self, d):
+            self.d = d
+
+        def visit_Name(self, n):
+            if isinstance(n.ctx, ast.Load) and self.d > 0:
+                vs = defs.get(n.id)
+                if vs and len(vs) == 1 and vs[0] is not None:
+                    return T(self.d - 1).visit(_copy.deepcopy(vs[0]))
+            return n
+    return T(depth).visit(_copy.deepcopy(expr))
+
+
+def expanded_text(fi, expr):
+    return ast.unparse(expand_locals(fi, expr))
+
+
+def call_args(db, module, call, cls_scope=None):
+    """Parameter name -> argument expression for a call to an in-repo
+    function or class (constructor), positional or keyword; None when the
+    callee does not resolve."""
+    from . import terms
+    from .srcdb import ClassInfo, FuncInfo
+    try:
+        ent = db.resolve_dotted(module, call.func, class_scope=cls_scope)
+    except AnalysisError:
+        return None
+    ent = db.deref(ent) if isinstance(ent, tuple) else ent
+    if isinstance(ent, ClassInfo):
+        init = db.find_method(ent, '__init__')
+        if init is None:
+            return None
+        return terms.map_args(init, call, skip_first=True)
+    if isinstance(ent, FuncInfo):
+        return terms.map_args(ent, call, skip_first=ent.kind in (
+            'instance', 'class'))
+    return None
